@@ -211,6 +211,14 @@ fn main() {
 
     // evidence
     let mut coverage = rep.coverage.clone();
+    {
+        // samples must always show actual cases: violating cases are cases too
+        let empty = coverage.get("samples").and_then(|v| v.as_array()).map(|a| a.is_empty()).unwrap_or(true);
+        if empty && !rep.violations.is_empty() {
+            let v: Vec<Value> = rep.violations.iter().take(3).map(|v| json!({"violating_case": v.case})).collect();
+            coverage.insert("samples".into(), Value::Array(v));
+        }
+    }
     coverage.entry("profile".to_string()).or_insert(json!(ctx.profile));
     coverage.insert("known_findings_hit".into(), json!(known_hits));
     coverage.insert("wall_cap_s".into(), json!(wall_cap_s));
